@@ -3,7 +3,8 @@
    part of BaseReactor._patcher) and chython/reactor/reactor.py:fix_mapping_overlap. *)
 From Coq Require Import ZArith List Bool Permutation.
 From Model Require Import PyBase Graph Reactor ReactorStage ReactorQueue Stereo.
-From Proofs Require Import ReactorProofs ReactorExt ReactorEquiv ReactorCompose StereoProofs ReactorStereo ReactorStereo2 ReactorQueueProofs.
+From Gen Require Import ReactorShape.
+From Proofs Require Import ReactorShapeProofs ReactorProofs ReactorExt ReactorEquiv ReactorCompose StereoProofs ReactorStereo ReactorStereo2 ReactorQueueProofs ReactorQueueComplete ReactorStageEquiv.
 Import ListNotations.
 Open Scope Z_scope.
 
@@ -617,3 +618,71 @@ Theorem C16_exhaustive_example :
   (forall a b, zl_eqb a b = true <-> a = b).
 Proof. exact exhaustive_example. Qed.
 Print Assumptions C16_exhaustive_example.
+
+(* completeness of the exhaustive mode: when the generator runs to its end (no exception, queue exhausted within the fuel)
+   the yielded reactions are closed under "one more single stage" -- every result of a single stage on every processed item
+   (the initial choices included) is yielded up to its key, every yielded reaction is such a result, and everything a yielded
+   reaction expands to (first seen, not ambiguous [len(new) > 1 and another number of products], depth below polymerise_limit)
+   has been processed as well *)
+Theorem C16_exhaustive_complete : forall (M K : Type) (key_eqb : K -> K -> bool) stage finish (key : list M -> K) operms
+    n_patterns n_products limit,
+  (forall a b, key_eqb a b = true <-> a = b) ->
+  forall structures fuel ys,
+    exhaustive M K key_eqb stage finish key operms n_patterns n_products limit structures fuel = (ys, None, true) ->
+    exists processed : list (item M),
+      incl (init_queue M n_patterns structures) processed /\
+      (forall chosen ignored d new, In (chosen, ignored, d) processed -> In new (fst (stage chosen ignored)) ->
+         In (key (finish new ignored)) (map key ys)) /\
+      (forall y, In y ys -> exists chosen ignored d new,
+         In (chosen, ignored, d) processed /\ In new (fst (stage chosen ignored)) /\ y = finish new ignored /\
+         (ambiguous M n_products new y ignored = false -> (S d < limit)%nat ->
+          incl (expand M operms n_patterns chosen y (S d)) processed)).
+Proof. exact exhaustive_complete. Qed.
+Print Assumptions C16_exhaustive_complete.
+
+Theorem C16_exhaustive_complete_example :
+  exhaustive Z (list Z) zl_eqb q_stage (fun new ign => new ++ ign) (fun p => p) (fun ms => [ms]) 1 1 3 [1%Z; 2%Z] 50
+    = ([[3; 2]; [4; 2]]%Z, None, true).
+Proof. exact exhaustive_complete_example. Qed.
+Print Assumptions C16_exhaustive_complete_example.
+
+(* ====================================================================================================
+   One stage of Reactor._single_stage does not depend on the numbering of the reactants, nor on the numbers of the
+   molecules that take no part: for ANY injective renumbering s of the united reactants (positive on its atoms) and ANY
+   two spectator number sets, the stage products of the two calls are injective renumberings (g, h) of one and the same
+   patched molecule
+   ==================================================================================================== *)
+Theorem C16_stage_one_renumbering : forall (s : Z -> Z) to_del tpl (cord cord' : list Z -> list Z) united ignored ignored' mp out out' mx mx',
+  (forall l x, In x (cord l) <-> In x l) -> (forall l x, In x (cord' l) <-> In x l) ->
+  (forall a b, s a = s b -> a = b) -> (forall x, In x (ids united) -> 0 < s x) ->
+  wf_mol united = true -> (forall x, In x (ids united) -> 0 < x) ->
+  zmax_list (ids united) = Some mx -> zmax_list (map s (ids united)) = Some mx' ->
+  (forall k v, In (k, v) mp -> In v (ids united)) ->
+  (forall p, In p to_del -> exists v, zget mp p = Some v) ->
+  stage_one to_del tpl cord united ignored mp = Ok out ->
+  stage_one to_del tpl cord' (rename_mol s united) ignored' (rename_match s mp) = Ok out' ->
+  exists new g h, patched to_del tpl united mp new /\
+    out = rename_mol g new /\ out' = rename_mol h new /\ inj_on_list g (ids new) /\ inj_on_list h (ids new).
+Proof. exact stage_one_renumbering. Qed.
+Print Assumptions C16_stage_one_renumbering.
+
+Theorem C16_stage_one_renumbering_example :
+  exists out out',
+    stage_one [4] ex_tpl (fun l => l) ex_mol [7; 8] ex_mapping = Ok out /\
+    stage_one [4] ex_tpl (fun l => l) (rename_mol (fun x => 10 - x) ex_mol) [10; 11] (rename_match (fun x => 10 - x) ex_mapping) = Ok out' /\
+    ids out = [2; 3; 4; 9; 1] /\ ids out' = [8; 7; 6; 12; 9].
+Proof. exact stage_one_renumbering_example. Qed.
+Print Assumptions C16_stage_one_renumbering_example.
+
+(* ====================================================================================================
+   Tie of the hand-written models to the source: Gen.ReactorShape (abstract-syntax digests and the normalised branch
+   conditions of every mirrored function of chython/reactor/*.py and Graph.remap / Graph.union) is regenerated from /repo on
+   every run and must equal the constants recorded when the models were written
+   ==================================================================================================== *)
+Theorem C16_reactor_shape_unchanged : shape_table = expected_shape_table.
+Proof. exact reactor_shape_unchanged. Qed.
+Print Assumptions C16_reactor_shape_unchanged.
+
+Theorem C16_reactor_conditions_unchanged : condition_table = expected_condition_table.
+Proof. exact reactor_conditions_unchanged. Qed.
+Print Assumptions C16_reactor_conditions_unchanged.
